@@ -229,6 +229,7 @@ class RPE(PE):
         else:
             # dimension-less
             self.unit = Unit.none
+        self.native_unit = self.unit
 
     def __str__(self) -> str:
         title = "RPE w.r.t. {} ({})\nfor delta = {} ({})".format(
@@ -346,6 +347,8 @@ class RPE(PE):
         else:
             raise MetricsException("unsupported pose_relation: ",
                                    self.pose_relation)
+        # The new values are in the native unit, also after a change_unit().
+        self.unit = self.native_unit
 
 
 class APE(PE):
@@ -367,6 +370,7 @@ class APE(PE):
             self.unit = Unit.radians
         else:
             self.unit = Unit.none  # dimension-less
+        self.native_unit = self.unit
 
     def __str__(self) -> str:
         title = "APE w.r.t. "
@@ -434,6 +438,8 @@ class APE(PE):
                 [abs(lie.so3_log_angle(E_i[:3, :3], True)) for E_i in self.E])
         else:
             raise MetricsException("unsupported pose_relation")
+        # The new values are in the native unit, also after a change_unit().
+        self.unit = self.native_unit
 
 
 def id_pairs_from_delta(poses: typing.Sequence[np.ndarray], delta: float,
